@@ -18,7 +18,7 @@ Src == <<"A","src">>
 MCOut == <<"A","out">>
 D7 == DirNode(755, 1)
 
-MCNameOrder == <<"", ".", "..", "..n", ".git", ".terraform", ".terraformignore", "A", "a", "a+b", "aab", "ab", "b", "cw", "e", "ef", "ext", "ext2",
+MCNameOrder == <<"", "-n", ".", "..", "..n", ".git", ".terraform", ".terraformignore", "A", "a", "a+b", "aab", "ab", "b", "cw", "e", "ef", "ext", "ext2",
                  "f", "fifo", "g", "k", "l", "la", "lb", "lc", "ld", "m", "modules", "out", "p", "q", "ra", "rl", "rl2", "s", "s.n", "src", "srcx", "t", "x", "y", "z">>
 MCNameChars == [n \in { MCNameOrder[i] : i \in DOMAIN MCNameOrder } |->
    CASE n = ".git" -> DotGit [] n = ".terraform" -> DotTerraform [] n = "modules" -> Modules
@@ -27,6 +27,7 @@ MCNameChars == [n \in { MCNameOrder[i] : i \in DOMAIN MCNameOrder } |->
      [] n = "fifo" -> <<"f","i","f","o">> [] n = "la" -> <<"l","a">> [] n = "lb" -> <<"l","b">> [] n = "out" -> <<"o","u","t">>
      [] n = "src" -> <<"s","r","c">> [] n = "srcx" -> <<"s","r","c","x">> [] n = "cw" -> <<"c","w">> [] n = "rl" -> <<"r","l">>
      [] n = "..n" -> <<".",".","n">> [] n = "s.n" -> <<"s",".","n">> [] n = "rl2" -> <<"r","l","2">> [] n = "ra" -> <<"r","a">> [] n = ".." -> <<".",".">>
+     [] n = "-n" -> <<"-","n">> [] n = "lc" -> <<"l","c">> [] n = "ld" -> <<"l","d">>
      [] OTHER -> <<n>>]
 
 ArenaBase ==
@@ -71,7 +72,12 @@ SafetyTrees(tl, tk, tm) ==
   \cup { TreeCore(tf, md, zm) @@ ArenaBase : tf \in {1024, 1025, 1026, 2}, md \in {755, 500, 700}, zm \in {0, 444, 777} }
 
 \* ---- round-trip universe (C02): relative in-tree links incl. dangling and chained, modes, times ----
-DotDotNames == (<<"A","src","..n">> :> FileNode(644, 2, 3)) @@ (<<"A","src","s","..n">> :> DirNode(755, 3))
+\* names beginning with two dots or a dash; a directory and a file with fractional mtimes (.5 rounds up, .6 up, .4 down)
+DotDotNames == (<<"A","src","..n">> :> FileNode(644, 1024, 3)) @@ (<<"A","src","s","..n">> :> DirNode(755, 1035))
+               @@ (<<"A","src","-n">> :> FileNode(640, 1026, 3))
+               \* what the built-in rules exclude and re-include: .terraform goes, .terraform/modules stays - as a directory too
+               @@ (<<"A","src",".terraform">> :> DirNode(750, 3)) @@ (<<"A","src",".terraform","x">> :> FileNode(644, 2, 5))
+               @@ (<<"A","src",".terraform","modules">> :> DirNode(700, 1035)) @@ (<<"A","src",".terraform","modules","f">> :> FileNode(600, 2, 6))
 RTTrees ==
   { LinkSlot(<<"A","src","l">>, l) @@ LinkSlot(<<"A","src","k">>, k) @@ LinkSlot(<<"A","src","s","m">>, m) @@ DotDotNames @@ TreeCore(tf, md, zm) @@ ArenaBase
     : l \in { <<"s">>, <<"f">>, <<".","f">>, <<"s","..","f">>, <<"nowhere">>, <<"s","g">>, <<"k">>, <<"-">> }, k \in { <<"l">>, <<".">>, <<"-">> },
